@@ -3,6 +3,8 @@ package main
 import (
 	"fmt"
 	"os"
+	"runtime/pprof"
+	"time"
 )
 
 var checks = map[string]func(c *Ctx){}
@@ -34,6 +36,18 @@ func main() {
 	f, ok := checks[prop]
 	if !ok {
 		infraFail("no check for %s", prop)
+	}
+	if hp := os.Getenv("VERIF_HEAPPROF"); hp != "" { // diagnostic: heap profile every 30 s
+		go func() {
+			for {
+				time.Sleep(15 * time.Second)
+				if f, err := os.Create(hp + ".tmp"); err == nil {
+					pprof.WriteHeapProfile(f)
+					f.Close()
+					os.Rename(hp+".tmp", hp)
+				}
+			}
+		}()
 	}
 	c := newCtx(prop, tier)
 	defer c.cleanup()
